@@ -158,7 +158,8 @@ def prt3(ctx: Ctx):
             if len(text_vars) == 1 and next(iter(text_vars)) in s.env:
                 ok = truth(s.env[next(iter(text_vars))], s.facts) is False
             else:
-                ok = any(fv is False and k[0] in ("item", "sub", "call") for k, fv in s.facts.items())
+                raise AnalysisError("_parse.split_netloc: cannot tell which value is the port text (int() is not applied to one "
+                                    "variable): unknown idiom")
             ctx.ob(rule, fi.qual, "return (..., None)", ok, "port reported absent without the port text being empty", where(fi, node),
                    sample="port text is empty")
             continue
